@@ -280,22 +280,22 @@ theorem Inv.mtch {refP : Array Nat} {refLen : Nat} {t : Array Nat} {i pred npl m
 /-- **encode_inv**: from any state that satisfies the invariant, whatever the loop returns decodes
     (token level) to the whole target. -/
 theorem encLoop_decodes (S : UInt64 → List Nat) (mm : Nat) (hmm : lzHashingStep ≤ mm) (refP : Array Nat)
-    (refLen : Nat) (t : Array Nat) (i pred npl : Nat) (toks : List Tok) (esz : Nat) (xprev : Option UInt64)
+    (refLen : Nat) (t : Array Nat) (i pred npl : Nat) (toks : List Tok) (xprev : Option UInt64)
     (res : List Tok)
     (hinv : Inv refP refLen t i pred npl toks)
-    (hres : encLoop S mm hmm refP refLen t i pred npl toks esz xprev = some res) :
+    (hres : encLoop S mm hmm refP refLen t i pred npl toks xprev = some res) :
     ∃ p, decToks refP refLen res.reverse ([], 0) = some (t.toList, p) := by
-  fun_induction encLoop S mm hmm refP refLen t i pred npl toks esz xprev with
-  | case1 i pred npl toks esz xprev hlt hx => cases hres
-  | case2 i pred npl toks esz xprev hlt hx hn ih => exact ih hinv.nrun hres
-  | case3 i pred npl toks esz xprev hlt hx hn hc => cases hres
-  | case4 i pred npl toks esz xprev hlt hx hn c hc ih => exact ih (hinv.lit hc) hres
-  | case5 i pred npl toks esz xprev hlt code hx hf => cases hres
-  | case6 i pred npl toks esz xprev hlt code hx hf hc => cases hres
-  | case7 i pred npl toks esz xprev hlt code hx hf c hc ih => exact ih (hinv.lit hc) hres
-  | case8 i pred npl toks esz xprev hlt code hx mpos bck fwd hf i' pred' toks' esz' total amp tok toks'' ih =>
+  fun_induction encLoop S mm hmm refP refLen t i pred npl toks xprev with
+  | case1 i pred npl toks xprev hlt hx => cases hres
+  | case2 i pred npl toks xprev hlt hx hn ih => exact ih hinv.nrun hres
+  | case3 i pred npl toks xprev hlt hx hn hc => cases hres
+  | case4 i pred npl toks xprev hlt hx hn c hc ih => exact ih (hinv.lit hc) hres
+  | case5 i pred npl toks xprev hlt code hx hf => cases hres
+  | case6 i pred npl toks xprev hlt code hx hf hc => cases hres
+  | case7 i pred npl toks xprev hlt code hx hf c hc ih => exact ih (hinv.lit hc) hres
+  | case8 i pred npl toks xprev hlt code hx mpos bck fwd hf i' pred' toks' total amp tok toks'' ih =>
     exact ih (hinv.mtch hmm (findBest_sound hmm hf)) hres
-  | case9 i pred npl toks esz xprev hlt =>
+  | case9 i pred npl toks xprev hlt =>
     simp only [Option.some.injEq] at hres
     subst hres
     have h0 := hinv 0 (by omega)
